@@ -16,6 +16,9 @@
 (*              fail() path                                                                              *)
 (*   show       showPlan.Execute: goroutine { errs <- GraphNames(names); close(errs) }, main ranges over  *)
 (*              names and then reads errs                                                                *)
+(*   memo       a lookup of the fan-out made through storage/memoization: the memoizer starts the        *)
+(*              forwarded read in its own goroutine (unbuffered channel c) and relays c to the caller    *)
+(*              under select { <-ctx.Done(); objs <- o }; a failing sibling cancels the group context    *)
 (* A fault is (failAt, mode, j): the failAt-th driver call of the statement fails before delivering      *)
 (* anything, after delivering j elements, or instead of writing (FaultModes).  TLC enumerates every      *)
 (* plan x channel size x fault and checks                                                               *)
@@ -26,6 +29,8 @@
 (*   DevShowWrongErrVar          showPlan returns the outer (nil) `err` when GraphNames failed           *)
 (*   DevConstructDropsWriteError the bulk writer's update() result is discarded     (repaired in /repo)  *)
 (*   DevConstructLeavesWriter    the error path returns without closing tripChan    (repaired in /repo)  *)
+(*   DevMemoNoDrainOnCancel      on ctx.Done() the memoized lookup returns without draining c: the       *)
+(*                               goroutine of the forwarded read stays blocked on its send for ever       *)
 (*   DevUpdateReturnsTable       INSERT/DELETE return the (empty) table together with the error - the    *)
 (*                               property does not forbid it; FaultTrace counts it as `open`             *)
 (* Environment assumption DriverCloses: a failing lookup still closes its channel (as storage/memory     *)
@@ -37,6 +42,7 @@
 EXTENDS Integers, Sequences, FiniteSets, TLC, Json, FaultU
 
 CONSTANTS DevShowWrongErrVar, DevConstructDropsWriteError, DevConstructLeavesWriter, DevUpdateReturnsTable,
+          DevMemoNoDrainOnCancel,
           DriverCloses,
           Plans,        \* sub-models to explore
           ChanSizes     \* channel capacities to explore (chanSize of planner.New)
@@ -57,7 +63,7 @@ NG == 2         \* target graphs of update / names of create-drop
 NT == 3         \* triples CONSTRUCT builds
 Bulk == 2       \* bulkSize
 
-Procs == {"main", "drv", "add", "spawn", "w1", "w2", "w3", "u1", "u2", "bw", "gn"}
+Procs == {"main", "drv", "add", "spawn", "w1", "w2", "w3", "u1", "u2", "bw", "gn", "mz"}
 Worker(r) == CASE r = 1 -> "w1" [] r = 2 -> "w2" [] OTHER -> "w3"
 Updater(g) == IF g = 1 THEN "u1" ELSE "u2"
 
@@ -71,6 +77,7 @@ CallsOf(pl) ==
       [] pl = "construct" -> <<[kind |-> "stream", n |-> 0], [kind |-> "store", n |-> 0], [kind |-> "write", n |-> 0],
                                [kind |-> "store", n |-> 0], [kind |-> "write", n |-> 0]>>
       [] pl = "show" -> <<[kind |-> "stream", n |-> K]>>
+      [] pl = "memo" -> <<[kind |-> "stream", n |-> K], [kind |-> "exist", n |-> 0]>>   \* #2: a sibling's call
 
 VARIABLES plan, cs,           \* sub-model and channel size of this behaviour
           fat, fmode, fj,     \* the fault: call number (0 = none), mode, elements delivered before failing
@@ -110,7 +117,7 @@ Init == \E pl \in Plans, c \in ChanSizes, le \in 0..NT : \E f \in FaultChoices(p
           /\ (le # 0 => pl = "construct")
           /\ plan = pl /\ cs = c /\ fat = f.at /\ fmode = f.mode /\ fj = f.j /\ lerrAt = le
           /\ pc = [p \in Procs |-> IF p = "main" THEN "start" ELSE "off"]
-          /\ chans = [n \in {"os", "ts", "trip", "done", "names", "errs"} |->
+          /\ chans = [n \in {"os", "ts", "trip", "done", "names", "errs", "c"} |->
                          CASE n \in {"os", "ts"} -> Chan(c) [] n = "trip" -> Chan(2 * Bulk) [] OTHER -> Chan(0)]
           /\ sent = 0 /\ oerr = FALSE
           /\ sem = SemCap /\ cancelled = FALSE /\ gerr = FALSE /\ si = 1
@@ -299,7 +306,44 @@ Show ==
           /\ UNCHANGED <<sent, oerr, failed, returned, ret>>
     /\ UNCHANGED <<sem, cancelled, gerr, si, uerr, ci, cn, buf, fin, lfailed>>
 
-Next == /\ (Fetch3 \/ Fetch2 \/ Fanout \/ Update \/ CreateDrop \/ Construct \/ Show)
+\* ---- a memoized lookup inside the fan-out ------------------------------------------------------------------------------
+\* call #1 = the forwarded read (process drv, started by the memoizer mz), call #2 = a sibling's call whose
+\* failure cancels the errgroup context at an arbitrary moment.
+Memo ==
+    /\ plan = "memo"
+    /\ \/ /\ pc["main"] = "start"
+          /\ pc' = [pc EXCEPT !["main"] = "mm.recv", !["mz"] = "m.recv", !["drv"] = "d.loop"]
+          /\ UNCHANGED <<chans, sent, oerr, failed, cancelled, gerr, returned, ret>>
+       \/ /\ fat = 2 /\ ~cancelled /\ ~returned                  \* the sibling fails: errOnce keeps its error, cancels
+          /\ cancelled' = TRUE /\ gerr' = TRUE /\ failed' = TRUE
+          /\ UNCHANGED <<pc, chans, sent, oerr, returned, ret>>
+       \/ Drv("drv", "c", "done") /\ UNCHANGED <<cancelled, gerr, returned, ret>>
+       \/ /\ pc["mz"] = "m.recv"
+          /\ \/ Has("c") /\ Take("c") /\ Goto("mz", "m.fwd")
+             \/ Drained("c") /\ Done("drv") /\ Close("os") /\ Goto("mz", "done")     \* wg.Wait(); defer close(objs)
+          /\ UNCHANGED <<sent, oerr, failed, cancelled, gerr, returned, ret>>
+       \/ /\ pc["mz"] = "m.fwd"                                  \* select { case <-ctx.Done(): ... case objs <- o: ... }
+          /\ \/ /\ cancelled /\ Close("os")
+                /\ Goto("mz", IF DevMemoNoDrainOnCancel THEN "done" ELSE "m.drain")
+             \/ Room("os") /\ Put("os", "o") /\ Goto("mz", "m.sent")
+          /\ UNCHANGED <<sent, oerr, failed, cancelled, gerr, returned, ret>>
+       \/ /\ pc["mz"] = "m.sent" /\ Taken("os") /\ Goto("mz", "m.recv")
+          /\ UNCHANGED <<chans, sent, oerr, failed, cancelled, gerr, returned, ret>>
+       \/ /\ pc["mz"] = "m.drain"                                \* the repair: keep receiving until the driver closes c
+          /\ \/ Has("c") /\ Take("c") /\ UNCHANGED pc
+             \/ Drained("c") /\ Goto("mz", "done") /\ UNCHANGED chans
+          /\ UNCHANGED <<sent, oerr, failed, cancelled, gerr, returned, ret>>
+       \/ /\ pc["main"] = "mm.recv"
+          /\ \/ Has("os") /\ Take("os") /\ UNCHANGED pc
+             \/ Drained("os") /\ Goto("main", "mm.wait") /\ UNCHANGED chans
+          /\ UNCHANGED <<sent, oerr, failed, cancelled, gerr, returned, ret>>
+       \/ /\ pc["main"] = "mm.wait" /\ Done("mz")
+          /\ LET e == oerr \/ gerr \/ cancelled IN Return(~e, e)
+          /\ Goto("main", "done")
+          /\ UNCHANGED <<chans, sent, oerr, failed, cancelled, gerr>>
+    /\ UNCHANGED <<sem, si, uerr, ci, cn, buf, fin, lfailed>>
+
+Next == /\ (Fetch3 \/ Fetch2 \/ Fanout \/ Update \/ CreateDrop \/ Construct \/ Show \/ Memo)
         /\ UNCHANGED <<plan, cs, fat, fmode, fj, lerrAt>>
 
 \* every goroutine that can take a step eventually does (the Go scheduler is fair)
